@@ -48,7 +48,7 @@ var w6sTopics = []string{"orders", "orders_eu", "secret", "secret_keys", "audit"
 
 func w6sGen(r *rand.Rand, prop, tier string) *simrt.Case {
 	c := &simrt.Case{Config: map[string]int64{}}
-	c.Config["acl"] = int64(r.IntN(6))
+	c.Config["acl"] = int64(r.IntN(7))
 	c.Config["cache_ttl_s"] = pk[int64](r, 0, 1, 30)
 	c.Config["cache_max"] = pk[int64](r, 0, 2, 100)
 	c.Config["max_frag"] = pk[int64](r, 0, 0, 1, 9, 200)
@@ -79,6 +79,9 @@ func w6sACL(n int64) ([]string, []string) {
 		return []string{"*"}, []string{"secret", "audit"}
 	case 4:
 		return []string{"orders"}, []string{"orders_eu"}
+	case 6:
+		// a deny entry inside an allowed pattern
+		return []string{"orders*", "secret*"}, []string{"orders_eu", "secret_keys"}
 	default:
 		return []string{"orders", "audit"}, []string{"secret*", "pay"}
 	}
@@ -119,6 +122,10 @@ func buildQuery(op simrt.Op) string {
 	}
 	sel := func() string {
 		q := kw("select") + " " + cols + " " + kw("from") + " " + t1
+		if r.IntN(8) == 0 {
+			// a stray statement separator in the middle of the text (one message, forwarded as it is)
+			q += " " + t1[:1] + " ;"
+		}
 		if r.IntN(2) == 0 {
 			q += pad() + kw(pk(r, "join", "left join")) + " " + t2 + " " + kw("on") + " " + t1 + "._key = " + t2 + "._key"
 		}
@@ -142,7 +149,7 @@ func buildQuery(op simrt.Op) string {
 	case 4:
 		return "set application_name = 'x'"
 	case 5:
-		return "  " + sel() + " ;"
+		return "  " + sel() + pk(r, " ;", ";", ";;", " ; ;")
 	default:
 		return sel()
 	}
@@ -301,11 +308,38 @@ func topicsRead(text string) []string {
 	return walk(parsed)
 }
 
+// w6sAllowed is the ACL as documented, written independently of the proxy's own matcher: a deny pattern
+// that matches wins; with no allow patterns everything else is allowed; otherwise an allow pattern must
+// match. Patterns: "*" matches everything, "x*" matches names starting with x, anything else is exact.
+func w6sAllowed(allow, deny []string, topic string) bool {
+	match := func(pats []string) bool {
+		for _, p := range pats {
+			p = strings.TrimSpace(p)
+			switch {
+			case p == "*":
+				return true
+			case strings.HasSuffix(p, "*") && strings.HasPrefix(topic, strings.TrimSuffix(p, "*")):
+				return true
+			case p == topic:
+				return true
+			}
+		}
+		return false
+	}
+	if match(deny) {
+		return false
+	}
+	if len(allow) == 0 {
+		return true
+	}
+	return match(allow)
+}
+
 func (w *w6s) finish() {
 	for _, text := range w.upstream {
 		w.sim.Probe("c37.forwarded-judged")
 		for _, topic := range topicsRead(text) {
-			if !w.acl.Allows(topic) {
+			if !w6sAllowed(w.acl.Allow, w.acl.Deny, topic) {
 				short := text
 				if len(short) > 90 {
 					short = short[:60] + fmt.Sprintf(" …(%d bytes)… ", len(text)) + short[len(short)-30:]
